@@ -49,6 +49,7 @@ type cfgHarness struct {
 	mu        sync.Mutex
 	labels    map[string]map[string]string // internal address -> labels (kept after removal)
 	configs   []model.ClusterConfig        // every config ever installed (latest last)
+	configAt  []time.Duration              // when each of them was installed
 	prev      *model.ClusterStatus
 	idsSeen   map[int64]string // shard id -> namespace it was first seen in
 	idsGone   map[int64]bool
@@ -140,9 +141,18 @@ func (h *cfgHarness) nsConfig(name string) (*model.NamespaceConfig, *model.Names
 	return cur, old
 }
 
+// inRecentConfig: the server is in the current configuration, in the one before, or was in a
+// configuration that was current at some point in the last two simulated minutes: a swap is
+// decided under the configuration of that moment, but its ensemble is stored only after its
+// election has gone through, which an unreachable old member can delay for a long time.
 func (h *cfgHarness) inRecentConfig(id string) bool {
 	n := len(h.configs)
-	for k := n - 1; k >= 0 && k >= n-2; k-- {
+	now := h.r.Now()
+	for k := n - 1; k >= 0; k-- {
+		recent := k >= n-2 || (k+1 < len(h.configAt) && now-h.configAt[k+1] < 2*time.Minute)
+		if !recent {
+			break
+		}
 		for _, s := range h.configs[k].Servers {
 			if s.GetIdentifier() == id {
 				return true
@@ -186,7 +196,13 @@ func (h *cfgHarness) onStore(n int, cs *model.ClusterStatus) {
 				live = append(live, hashRng{id, sh.Int32HashRange.Min, sh.Int32HashRange.Max})
 			}
 		}
-		if len(live) > 0 {
+		if cur, _ := h.nsConfig(name); cur == nil && len(live) > 0 {
+			// the namespace was removed from the configuration: its shards are on their way out.  (A
+			// shard controller that was in the middle of a swap can write its shard back with a
+			// non-deleting status after the removal; what is left of the namespace is not a map
+			// anybody is promised, see DESIGN.md section 12.)
+			h.r.Count("removed_namespace_with_live_shards", 1)
+		} else if len(live) > 0 {
 			if msg := partitionError(live); msg != "" {
 				cur, _ := h.nsConfig(name)
 				want := uint32(0)
@@ -380,6 +396,9 @@ func (h *cfgHarness) tap(t *TapMsg) {
 		if len(rs) == 0 {
 			continue // namespace being deleted: nothing is published for it
 		}
+		if cur, _ := h.nsConfig(name); cur == nil {
+			continue // removed from the configuration (see onStore)
+		}
 		if msg := partitionError(rs); msg != "" {
 			h.fail("C18", "published-shard-map-not-a-partition", "%s -> %s %s: namespace %q: %s; shards: %s", t.Src, t.Dst, t.Method[strings.LastIndexByte(t.Method, '/')+1:], name, msg, describeRanges(rs))
 			return
@@ -405,6 +424,12 @@ func (h *cfgHarness) checkClients(where string) {
 		rs := pub[c.ns]
 		if len(rs) == 0 {
 			continue
+		}
+		h.mu.Lock()
+		cur, _ := h.nsConfig(c.ns)
+		h.mu.Unlock()
+		if cur == nil {
+			continue // the namespace is not configured any more
 		}
 		want := map[int64]bool{}
 		for _, x := range rs {
@@ -473,6 +498,7 @@ func (h *cfgHarness) epochOf(ns string) int {
 func (h *cfgHarness) install(cfg model.ClusterConfig, what string) {
 	h.mu.Lock()
 	h.configs = append(h.configs, cloneConfig(cfg))
+	h.configAt = append(h.configAt, h.r.Now())
 	h.prog = append(h.prog, what)
 	h.mu.Unlock()
 	h.r.Logf("config: %s", what)
@@ -533,6 +559,7 @@ func runConfigHistory(r *Run, prop string) {
 		cl.Config.ServerMetadata[nodeInternal(n)] = model.ServerMetadata{Labels: h.labels[nodeInternal(n)]}
 	}
 	h.configs = append(h.configs, cloneConfig(cl.Config))
+	h.configAt = append(h.configAt, 0)
 	h.nsEpoch["default"] = 1
 	h.prog = append(h.prog, fmt.Sprintf("initial: servers %v, %s", h.pool[:nInitial], descNs(cl.Config.Namespaces[0])))
 	cl.Meta.OnStore = h.onStore
@@ -650,7 +677,28 @@ func runConfigHistory(r *Run, prop string) {
 				n := nodeOfAddr(cfg.Servers[j].GetIdentifier())
 				cfg.Servers = append(append([]model.Server{}, cfg.Servers[:j]...), cfg.Servers[j+1:]...)
 				delete(cfg.ServerMetadata, nodeInternal(n))
-				h.install(cfg, "remove server "+n)
+				what := "remove server " + n
+				if gi.Chance(40) {
+					// the server is taken out because it is unreachable: moving its replicas away cannot
+					// tell it to delete its shards for a while
+					others := append([]string{"coord"}, h.pool...)
+					for _, o := range others {
+						if o != n {
+							w.Net.Partition(n, o)
+							w.Net.Partition(o, n)
+						}
+					}
+					d := time.Duration(gi.Range(2000, 40000)) * time.Millisecond
+					w.Net.After(d, fmt.Sprintf("heal-removed/%d", i), func() {
+						for _, o := range others {
+							w.Net.Heal(n, o)
+							w.Net.Heal(o, n)
+						}
+					})
+					what += fmt.Sprintf(" (unreachable for %v)", d)
+					r.Count("servers_removed_while_unreachable", 1)
+				}
+				h.install(cfg, what)
 				r.Count("servers_removed", 1)
 			case k < 75: // coordinator crash + restart
 				cl.CrashCoordinator()
